@@ -83,6 +83,18 @@ def closed_key_and_time_signatures():
                 ks2.is_list = ks.is_list
                 if str(ks2) != text:
                     return False, n, {"input": [f, mode, fmt], "what": "text %r becomes %r after one round" % (text, str(ks2))}
+    # a key with an alternative key of the other mode (relative major/minor) and of the same mode
+    for fmt in ("v1.0.0", "v0.3.0"):
+        for (f, m, fa, ma) in ((3, "major", 3, "minor"), (3, "minor", 3, "major"), (0, "major", 0, "minor"), (-4, "minor", -4, "major"), (4, "major", 1, "major"), (-2, "minor", -5, "minor")):
+            n += 1
+            ks = MatchKeySignature(fifths=f, mode=m, fifths_alt=fa, mode_alt=ma, fmt=fmt)
+            text = str(ks)
+            try:
+                ks2 = MatchKeySignature.from_string(text)
+            except Exception as e:
+                return False, n, {"input": [f, m, fa, ma, fmt], "what": "key signature written as %r does not parse back: %s: %s" % (text, type(e).__name__, e)}
+            if (ks2.fifths, ks2.mode, ks2.fifths_alt, ks2.mode_alt) != (f, m, fa, ma):
+                return False, n, {"input": [f, m, fa, ma, fmt], "what": "key signature written as %r reads back as %r" % (text, (ks2.fifths, ks2.mode, ks2.fifths_alt, ks2.mode_alt))}
     for (num, den) in ((4, 4), (6, 8), (3, 2), (12, 16), (5, 4)):
         n += 1
         ts = MatchTimeSignature.from_string("%d/%d" % (num, den))
@@ -240,6 +252,23 @@ def _bounded(b):
                             good, why = False, "field %s: %r became %r after upgrading" % (f, x, y)
                 base_kind = lambda c: re.sub(r"^Match", "", c).replace("Meta", "ScoreProp")
                 b.case("upgrade/to_v1_keeps_kind_and_musical_content", good, case, why, nontrivial=nontriv, key=repr(key))
+                # the upgraded line, written after the old line has been written, is a 1.0.0 line that survives its own round trip
+                ok, su = b.guard("upgrade/upgraded_line_writes", case, lambda: up.matchline)
+                if ok:
+                    ver1, methods1 = _methods("1.0.0")
+                    try:
+                        obj3 = parse_matchline(su, methods1, ver1)
+                    except Exception:
+                        obj3 = None
+                    if obj3 is None:
+                        b.case("upgrade/upgraded_line_reads_back_as_written", False, case, "the upgraded line %r does not parse as a 1.0.0 line" % su[:120], nontrivial=nontriv, key=repr(key))
+                    else:
+                        try:
+                            s3 = obj3.matchline
+                        except Exception as e:
+                            s3 = "<%s>" % type(e).__name__
+                        b.case("upgrade/upgraded_line_reads_back_as_written", s3 == su and type(obj3) is type(up), case,
+                               "upgraded line %r is written as %r after reading it back" % (su[:120], s3[:120]), nontrivial=nontriv, key=repr(key))
             # type-driven mutations
             for fn in obj.field_names:
                 v0_ = getattr(obj, fn, None)
